@@ -246,14 +246,32 @@ func (n *ambassador) handleUpdateDIDDocument(transaction dag.Transaction, propos
 
 	// Resolve version of DID Document referred to by transaction
 	var currentDIDDocument *did.Document
+	// The transaction may name more than one version of the document as previous: all of them but the first one found.
+	var otherVersions []did.Document
+	var knownVersions []*resolver.DocumentMetadata
 	var err error
 	for _, ref := range transaction.Previous() {
-		currentDIDDocument, _, err = n.didStore.Resolve(proposedDIDDocument.ID, &resolver.ResolveMetadata{AllowDeactivated: true, SourceTransaction: &ref})
+		version, metadata, err := n.didStore.Resolve(proposedDIDDocument.ID, &resolver.ResolveMetadata{AllowDeactivated: true, SourceTransaction: &ref})
 		if err != nil && !errors.Is(err, resolver.ErrNotFound) {
 			return fmt.Errorf("unable to update DID document: %w", err)
 		}
-		if currentDIDDocument != nil {
-			break
+		if version == nil {
+			continue
+		}
+		if currentDIDDocument == nil {
+			currentDIDDocument = version
+			knownVersions = append(knownVersions, metadata)
+			continue
+		}
+		known := false
+		for _, other := range knownVersions {
+			if other != nil && metadata != nil && other.Hash.Equals(metadata.Hash) {
+				known = true
+			}
+		}
+		if !known {
+			otherVersions = append(otherVersions, *version)
+			knownVersions = append(knownVersions, metadata)
 		}
 	}
 	// fallback
@@ -303,6 +321,27 @@ func (n *ambassador) handleUpdateDIDDocument(transaction dag.Transaction, propos
 	}
 	if keyToSign == nil {
 		return fmt.Errorf("network document not signed by one of its controllers")
+	}
+
+	// The new version supersedes every version that the transaction names as previous, so the signing key must be authorised by
+	// (the controllers of) each of them, not just the first one found. Otherwise a key that was removed from the document
+	// could take it over by naming the version that still listed it before the version that removed it.
+	for _, version := range otherVersions {
+		versionControllers, err := n.resolveControllers(version, transaction)
+		if err != nil {
+			return fmt.Errorf("unable to resolve DID document's controllers: %w", err)
+		}
+		var versionRelationships []did.VerificationRelationship
+		for _, didCtrl := range versionControllers {
+			versionRelationships = append(versionRelationships, didCtrl.CapabilityInvocation...)
+		}
+		keyToSign, err = n.findKeyByThumbprint(signingKeyThumbprint, versionRelationships)
+		if err != nil {
+			return fmt.Errorf("unable to find signingKey by thumprint in controllers: %w", err)
+		}
+		if keyToSign == nil {
+			return fmt.Errorf("network document not signed by one of its controllers")
+		}
 	}
 
 	err = n.didStore.Add(proposedDIDDocument, didstore.Transaction{
